@@ -90,38 +90,48 @@ def hook_keys(sub) -> list:
 
 
 def locally_declared(sub, tv: TV, path: tuple) -> set:
-    """names declared by the class of the object node at `path`, and by every alternative of the union(s) it sits under"""
-    from ..tvgen import U
+    """names declared by the class of the object node at `path`, and by every other reading the enclosing unions offer for
+    that position: at a union directly above the object its object alternatives; at a union above an array (or map) that
+    holds the object, the element types of its array (map) alternatives (`SymbolInformation[] | WorkspaceSymbol[]`)."""
+    from ..tvgen import L, Mp, U
     nodes = {p_: n for p_, n in walk(tv)}
     node = nodes[path]
     names = {p["name"] for p in sub.objects.props(node.key)}
     m = sub.model
 
-    def collect(t: dict, depth: int = 0) -> None:
-        if depth > 6:
+    def collect(t: dict, wraps: tuple, depth: int = 0) -> None:
+        """wraps: the containers between the union and the object, outermost first ('array' / 'map')"""
+        if depth > 8:
             return
         t = m.resolve_alias(t)
-        if t["kind"] == "reference" and t["name"] in m.structs:
-            names.update(p["name"] for p in m.flat_props(t["name"]))
-        elif t["kind"] == "literal":
-            names.update(p["name"] for p in t["value"]["properties"])
-        elif t["kind"] in ("or", "and", "tuple"):
+        k = t["kind"]
+        if k in ("or", "and"):
             for it in t["items"]:
-                collect(it, depth + 1)
-        elif t["kind"] == "array":
-            collect(t["element"], depth + 1)
-        elif t["kind"] == "map":
-            collect(t["value"], depth + 1)
+                collect(it, wraps, depth + 1)
+        elif wraps:
+            if k == wraps[0] == "array":
+                collect(t["element"], wraps[1:], depth + 1)
+            elif k == wraps[0] == "map":
+                collect(t["value"], wraps[1:], depth + 1)
+        elif k == "reference" and t["name"] in m.structs:
+            names.update(p["name"] for p in m.flat_props(t["name"]))
+        elif k == "literal":
+            names.update(p["name"] for p in t["value"]["properties"])
 
     p_ = path
-    while p_:   # every union (and the arrays of unions) on the way up, as far as the chain of wrappers goes
+    wraps: tuple = ()
+    while p_:
         p_ = p_[:-1]
         parent = nodes.get(p_)
         if isinstance(parent, U):
             ty = sub.objects.type_at.get(parent.occ)
             if ty is not None:
-                collect(ty)
-        elif isinstance(parent, S):
+                collect(ty, wraps)
+        elif isinstance(parent, L):
+            wraps = ("array",) + wraps
+        elif isinstance(parent, Mp):
+            wraps = ("map",) + wraps
+        else:
             break
     return names
 
